@@ -1,5 +1,6 @@
 (* C05 - Serialize / initialize / deserialize round-trip with exact size accounting. Statements only. *)
-From SF Require Import Base.Prelude Unsized.Types Unsized.Parse Unsized.Proofs.EncodeParse.
+From SF Require Import Base.Prelude Unsized.Types Unsized.Parse Unsized.Machine Unsized.Ops Unsized.Proofs.EncodeParse.
+From SF Require Import Unsized.Proofs.Layout Unsized.Proofs.Init.
 
 (* serializing produces exactly the announced number of bytes, for every shape and every well-formed value *)
 Theorem C05_encode_size : forall t v, wf t v = true -> zlen (encode t v) = byte_size t v.
@@ -36,6 +37,35 @@ Proof.
     destruct (length d); [lia|reflexivity].
   - rewrite !wf_struct_cons. cbn [wf fsize fvalid]. rewrite Nat.eqb_refl, Hb, Hwf. reflexivity.
 Qed.
+
+(* initialising: for every enum-free shape whose fixed-size parts accept the all-zero pattern, the default initializer
+   writes exactly the canonical encoding of the default value (zero bytes, empty lists), of exactly the announced size;
+   deserializing what it wrote gives that value back *)
+Theorem C05_init_default_exact :
+  forall t, plain t = true -> zero_ok t = true ->
+    init_bytes t 0 = Ok (encode t (dflt t)) /\ init_size t 0 = zlen (encode t (dflt t)) /\ wf t (dflt t) = true.
+Proof. exact init_default_exact. Qed.
+
+Theorem C05_init_then_deserialize :
+  forall ovf t, plain t = true -> zero_ok t = true -> ty_ok true t = true ->
+    exists bs, init_bytes t 0 = Ok bs /\ zlen bs = init_size t 0 /\ parse ovf t bs = Ok (dflt t, init_size t 0).
+Proof.
+  intros ovf t Hp Hz Hok. destruct (init_default_exact t Hp Hz) as (Hb & Hs & Hw).
+  exists (encode t (dflt t)). split; [exact Hb|]. split; [now rewrite Hs|].
+  rewrite Hs, (encode_size _ _ Hw). now apply parse_encode.
+Qed.
+
+(* the array initializers: n items when n fits the list's length prefix, ToPrimitiveError otherwise *)
+Theorem C05_init_array_exact :
+  forall c lw kind n, (kind = 1 /\ n = 3) \/ (kind = 2 /\ n = 300) -> n < 256 ^ Z.of_nat lw ->
+    init_bytes (TList c lw) kind = Ok (encode (TList c lw) (VList (repeat (repeat 1 (fsize c)) (Z.to_nat n)))) /\
+    init_size (TList c lw) kind = zlen (encode (TList c lw) (VList (repeat (repeat 1 (fsize c)) (Z.to_nat n)))).
+Proof. exact init_list_array. Qed.
+
+Theorem C05_init_array_too_long :
+  forall c lw kind n, (kind = 1 /\ n = 3) \/ (kind = 2 /\ n = 300) -> 256 ^ Z.of_nat lw <= n ->
+    init_bytes (TList c lw) kind = Err E_TOPRIM.
+Proof. exact init_list_array_too_long. Qed.
 
 Example C05_nonvacuous :
   let t := TStruct [TFixed (FStruct [FAny 1; FBool]); TList (FAny 1) 4; TUList (TList (FAny 2) 1) 0; TRem] in
